@@ -416,7 +416,18 @@ check_for_constructor(CPPScope *current_scope, CPPScope *global_scope) {
         }
 
         CPPParameterList *params = func->_parameters;
-        if (params->_parameters.size() == 1 && !params->_includes_ellipsis) {
+
+        // A copy or move constructor (or assignment operator) takes a
+        // reference to the class; a constructor may take further parameters
+        // provided that all of them have default arguments.
+        bool rest_defaulted = !params->_parameters.empty();
+        for (size_t pi = 1; pi < params->_parameters.size(); ++pi) {
+          if (params->_parameters[pi]->_initializer == nullptr) {
+            rest_defaulted = false;
+          }
+        }
+        if (rest_defaulted && !params->_includes_ellipsis &&
+            (params->_parameters.size() == 1 || method_name == class_name)) {
           CPPType *param_type = params->_parameters[0]->_type;
           CPPReferenceType *ref_type = param_type->as_reference_type();
 
